@@ -12,6 +12,7 @@ CONSTANT Bits = {8}
 CONSTANT Flips = {FALSE, TRUE}
 CONSTANT Accs = {"U55_128"}
 CONSTANT ClearOnCompile = FALSE
+CONSTANT ExtendedKey = FALSE
 CONSTANT Assume = FALSE
 INVARIANT Coherent
 CHECK_DEADLOCK FALSE
